@@ -1,6 +1,7 @@
 package main
 
 import (
+	"os"
 	"fmt"
 	"go/ast"
 	"go/token"
@@ -517,6 +518,101 @@ func gQuote(c *Ctx, rule string) {
 				ok2 := q != "" && strings.HasPrefix(after, q)
 				c.check(ok2, rule, key, c.pos(cw.Pos), "attribute value sink is enclosed in matching literal quotes",
 					fmt.Sprintf("%s: the dynamic attribute value written by %s is preceded by literal %q and followed by %q — it must sit between matching quotes, or a space in the value starts a new attribute", gf.Name, cw.Name, before, after))
+			}
+		}
+	}
+	// the same for a value writer that was evaluated in place (its Go statements are part of this function's path):
+	// the run of Go-code emissions that holds the buffer.WriteString sink sits between the same literal quotes
+	for _, gf := range g.order {
+		if !gf.Emits || len(g.Skeletons(gf)) == 0 {
+			continue
+		}
+		seenKey := map[string]bool{}
+		for _, path := range g.Paths(gf) {
+			path = mapRelevant(path)
+			if os.Getenv("TEMPLVET_DEBUG") != "" && strings.Contains(gf.Name, "writeExpressionAttribute") {
+				var ks []string
+				for _, nd := range path {
+					switch x := nd.(type) {
+					case Emit:
+						t := "E"
+						if x.Lit {
+							t = "L"
+						}
+						own := gf.Decl.Pos() <= x.Pos && x.Pos <= gf.Decl.End()
+						ks = append(ks, fmt.Sprintf("%s(own=%v)%q", t, own, litText(x)))
+					default:
+						ks = append(ks, fmt.Sprintf("%T", nd))
+					}
+				}
+				fmt.Fprintf(os.Stderr, "DEBUG gQuote %s: %s\n", gf.Name, strings.Join(ks, " | "))
+			}
+			for i, nd := range path {
+				e, ok := nd.(Emit)
+				if !ok || e.Lit {
+					continue
+				}
+				// an emission of a helper (not written in gf itself) that is the sink statement
+				if gf.Decl.Pos() <= e.Pos && e.Pos <= gf.Decl.End() {
+					continue
+				}
+				isSink := false
+				for _, p := range e.Parts {
+					if p.Kind == PConst && strings.Contains(p.Const, n.Buf+".WriteString(") {
+						isSink = true
+					}
+				}
+				if !isSink {
+					continue
+				}
+				before, after := "", ""
+				// earlier Go statements of the same writer, source-map registrations and handler calls are stepped over;
+				// then the run of literal emissions next to them
+				inRun := false
+				for j := i - 1; j >= 0; j-- {
+					if pe, ok := path[j].(Emit); ok && pe.Lit {
+						before = litText(pe) + before
+						inRun = true
+						continue
+					}
+					if inRun {
+						break
+					}
+				}
+				inRun = false
+				for j := i + 1; j < len(path); j++ {
+					if ne, ok := path[j].(Emit); ok && ne.Lit {
+						after += litText(ne)
+						inRun = true
+						continue
+					}
+					if inRun {
+						break
+					}
+				}
+				if !strings.HasSuffix(strings.TrimRight(before, "\"'"), "=") {
+					continue // not an attribute-value position
+				}
+				owner := "helper"
+				for _, og := range g.order {
+					if og.Decl != nil && og.Decl.Pos() <= e.Pos && e.Pos <= og.Decl.End() {
+						owner = og.Name
+					}
+				}
+				key := gf.Key + "|attr-value:" + owner
+				if seenKey[key+before+after] {
+					continue
+				}
+				seenKey[key+before+after] = true
+				q := ""
+				if strings.HasSuffix(before, "=\"") {
+					q = "\""
+				} else if strings.HasSuffix(before, "='") {
+					q = "'"
+				}
+				ok2 := q != "" && strings.HasPrefix(after, q)
+				c.check(ok2, rule, key, c.pos(e.Pos), "attribute value sink is enclosed in matching literal quotes",
+					fmt.Sprintf("%s: the dynamic attribute value written by %s is preceded by literal %q and followed by %q — it must sit between matching quotes, or a space in the value starts a new attribute", gf.Name, owner, before, after))
 			}
 		}
 	}
